@@ -87,6 +87,8 @@ SCHEMA = '''<xsd:element name="f"><xsd:complexType><xsd:sequence>
 <xsd:element name="fResponse"><xsd:complexType><xsd:sequence>
 <xsd:element name="r" type="xsd:string"/>
 <xsd:element name="o"><xsd:complexType><xsd:attribute name="k" type="xsd:string"/></xsd:complexType></xsd:element>
+<xsd:element name="v" minOccurs="0"><xsd:complexType><xsd:simpleContent><xsd:extension base="xsd:string">
+<xsd:attribute name="a" type="xsd:string"/></xsd:extension></xsd:simpleContent></xsd:complexType></xsd:element>
 </xsd:sequence></xsd:complexType></xsd:element>'''
 
 
@@ -217,18 +219,21 @@ class Paths:
 
     def reply(self, rng, s, soap12=False):
         envns = xmlread.ENV12 if soap12 else xmlread.ENV11
-        body = "<r>%s</r><o k=\"%s\"/>" % (write_encoded(rng, s, False), write_encoded(rng, s, True))
+        body = "<r>%s</r><o k=\"%s\"/><v a=\"1\">%s</v>" % (write_encoded(rng, s, False), write_encoded(rng, s, True),
+                                                          write_encoded(rng, s, False))
         doc = ('<e:Envelope xmlns:e="%s"><e:Body><fResponse xmlns="%s">%s</fResponse></e:Body></e:Envelope>'
                % (envns, wsdlkit.TNS, body)).encode("utf-8")
         # the writer itself must be right: expat is the judge of what the document contains
         root = xmlread.parse(doc)
         fr = xmlread.find1(xmlread.find1(root, "Body"), "fResponse")
-        truth = (xmlread.find1(fr, "r")["text"], xmlread.find1(fr, "o")["attrs"][(None, "k")])
-        assert truth == (s, s), "writer bug: %r %r" % (truth, s)
+        truth = (xmlread.find1(fr, "r")["text"], xmlread.find1(fr, "o")["attrs"][(None, "k")],
+                 xmlread.find1(fr, "v")["text"])
+        assert truth == (s, s, s), "writer bug: %r %r" % (truth, s)
         res = self.rep.service.f("x", {"_k": "y"}, __inject={"reply": doc})
         r = getattr(res, "r", None)
         k = getattr(getattr(res, "o", None), "_k", None)
-        return doc, (None if r is None else str(r), None if k is None else str(k))
+        v = getattr(getattr(res, "v", None), "value", None)
+        return doc, (None if r is None else str(r), None if k is None else str(k), None if v is None else str(v))
 
 
 def check_string(ctx, paths, s, model, deep):
@@ -266,7 +271,10 @@ def check_string(ctx, paths, s, model, deep):
     # 4. oracle: reply written by an independent writer
     if s and s.strip(" \t\n\r") == s or True:
         for soap12 in (False, True):
-            doc, (r, k) = paths.reply(ctx.rng, s, soap12)
+            doc, (r, k, v) = paths.reply(ctx.rng, s, soap12)
+            if v != s and not (s == "" and v in (None, "")):
+                ctx.fail("text of a reply element that also carries an attribute is not decoded to the document's string",
+                         {"s": s, "doc": doc.decode("utf-8")}, v, s, direction="reply", position="text+attr")
             ctx.case(("rep", soap12, s), nontrivial)
             exp_r = s
             if r != exp_r and not (s == "" and r in (None, "")):
